@@ -21,7 +21,8 @@ if VERIF not in sys.path:
     sys.path.insert(0, VERIF)
 
 BEHAVIOURS = ["plain", "unsub_self_on_next", "unsub_other_on_next", "sub_other_on_next", "raise_on_next"]
-OPS = [("sub", 0), ("sub", 1), ("unsub", 0), ("unsub", 1), ("next", "a"), ("next", None), ("error",), ("completed",), ("dispose",)]
+# element values: 1 and True compare equal and are different values (a subject that compares elements instead of keeping them shows here); None is falsy
+OPS = [("sub", 0), ("sub", 1), ("unsub", 0), ("unsub", 1), ("next", 1), ("next", True), ("next", None), ("error",), ("completed",), ("dispose",)]
 
 
 class Boom(Exception):
@@ -39,7 +40,7 @@ class Rec:
         self.fired = 0
 
     def on_next(self, v):
-        self.log.append(("N", v))
+        self.log.append(("N", type(v).__name__, v))  # logs are compared with ==: the type keeps 1 and True apart
         b = self.behaviour
         if b == "plain" or self.fired >= 2:
             return
